@@ -18,8 +18,7 @@ T = "vaporetto::trainer::Trainer"
 
 
 def run(chk):
-    w = facts.world("W")
-    chk.configs.add("W")
+    w = C.world_for(chk)
     chk.rule("R10.1", "label filter table of add_example: N -> (xs, ys:=0), W -> (xs, ys:=1), Unknown -> no example")
     chk.rule("R10.2", "xs/ys written only by add_example, consumed only by train")
     chk.rule("R10.3", "feature loop forms, char/type twins, dictionary feature positions and guards")
